@@ -2,7 +2,7 @@
 C07-WRAP, C07-SAMEIDX, C07-MAGIC (DESIGN.md §3)."""
 import re
 
-from facts import (norm, show, walk, strip_refs, deep_strip, callee_name, find_calls, decision_paths, static_accesses,
+from facts import (substitute_args, norm, show, walk, strip_refs, deep_strip, callee_name, find_calls, decision_paths, static_accesses,
                    guard_conditions, cmp_op)
 import intervals as iv
 
@@ -411,6 +411,14 @@ def rule_magic(fx, rep):
         good = len(paths) == 1
         if good:
             e = deep_strip(paths[0][1])
+            # the arithmetic may sit in a helper shared by both pieces: inline it with the call's arguments
+            for _ in range(2):
+                if isinstance(e, tuple) and e and e[0] == "call" and isinstance(e[1], str) and "tables::magics::" in e[1] and fx.body(e[1]) is not None:
+                    hp = [p for p in decision_paths(fx.body(e[1])) if p[1] is not None]
+                    if len(hp) == 1 and not hp[0][0]:
+                        e = deep_strip(substitute_args(hp[0][1], e[2]))
+                        continue
+                break
             txt = show(e)
             wm = find_calls(e, "wrapping_mul")
             good = bool(wm) and bool(find_calls(e, "BitOr>::bitor")) and "Shr" in txt and (find_calls(e, "Add<usize>>::add", "Add>::add") or "Add" in txt)
